@@ -112,8 +112,14 @@ func registerMain() {
 	vrt.Quiesce()
 	check("after registration")
 	victim := nodes[vrt.Choose(nf, true, "victim")]
-	switch vrt.Choose(3, true, "disturbance") {
+	switch vrt.Choose(4, true, "disturbance") {
 	case 0:
+	case 3:
+		// a network interruption resets every connection; all processes stay alive. The leader drops the
+		// followers it cannot ping; each follower notices that its leader connection is dead, reconnects and
+		// registers again.
+		vrpc.Blip()
+		hist = append(hist, "network-blip")
 	case 1:
 		kill(victim)
 		hist = append(hist, "dies("+victim.id.Name+")")
